@@ -107,6 +107,17 @@ def gen_filters(repo):
     out += '(* the loop over rcpt_cbs[] goes on while fr is one of *)\nDefinition LOOP_CONTINUES_ON : list Z := [%s].\n' % '; '.join(names)
     if not re.search(r'fr\s*=\s*rcpt_cbs\[i\]\s*\(\s*&ds\s*,\s*&errmsg\s*,\s*&bt\s*\)\s*;', sr):
         raise TranslateError('smtp_rcpt: call of rcpt_cbs[i](&ds, ...) not found')
+    # how smtp_rcpt records blanks between "RCPT TO:" and '<': only ever sets the flag (sticky) or assigns it
+    if re.search(r'if\s*\(\s*bugoffset\s*!=\s*0\s*\)\s*xmitstat\.spacebug\s*=\s*1\s*;', sr):
+        sticky = True
+    elif re.search(r'(?<!\))\s*xmitstat\.spacebug\s*=\s*(!!\s*bugoffset|\(?\s*bugoffset\s*(!=|>)\s*0\s*\)?)\s*;', sr):
+        sticky = False
+    else:
+        raise TranslateError('smtp_rcpt: cannot parse how xmitstat.spacebug is set from bugoffset')
+    if len(re.findall(r'xmitstat\.spacebug\s*=', sr)) != 1:
+        raise TranslateError('smtp_rcpt: xmitstat.spacebug is assigned more than once')
+    out += '(* smtp_rcpt only ever sets xmitstat.spacebug (a clean RCPT TO line keeps what MAIL FROM / an earlier RCPT TO recorded) *)\n'
+    out += 'Definition SPACEBUG_STICKY : bool := %s.\n' % ('true' if sticky else 'false')
     keys = re.findall(r'getsetting\s*\(\s*&ds\s*,\s*"([^"]*)"\s*,\s*&t\s*\)', sr)
     if len(keys) != 2:
         raise TranslateError('smtp_rcpt: expected two getsetting(&ds, "...", &t) calls, found %d' % len(keys))
